@@ -362,7 +362,7 @@ def build_request(ex, meta):
         r["extend_with"] = o["extend_with"].split(",")
     if "await_yields" in o:
         r["await_yields"] = o["await_yields"]
-    for k in ("index_recv", "drop_calls", "opaque_macros", "mut_params", "str_params", "string_exprs", "seq_args", "into_vec", "iter_on", "iter_vec", "keyed_mut_iter", "deref_params", "subst", "collect_as_set"):
+    for k in ("index_recv", "drop_calls", "opaque_macros", "mut_params", "str_params", "string_exprs", "seq_args", "set_into_vec", "into_vec", "iter_on", "iter_vec", "keyed_mut_iter", "deref_params", "subst", "collect_as_set"):
         if k in o:
             r[k] = o[k].split(",")
     if "param_types" in o:
